@@ -182,9 +182,11 @@ CLAIMED = {
              "with machine-checked theorems for the parts that do not depend on the supply mix: no declared DHW demand -> "
              "error; |demand| < epsilon -> error (also with no DHW consumption, fix 35df073); no DHW consumption and "
              "non-zero demand -> 0; the fraction reads nothing that depends on k_exp (C15_k_independent: same value or "
-             "error for every k_exp) nor on the reference area. PARTIAL: the closed forms of the canonical supply mixes "
-             "(direct electric + PV, heat pump, solar thermal + boiler, biomass alone), the range [0,1] for consistent "
-             "demands, the invariance under non-EPB and other services' non-electric consumption, and the biomass-without-"
+             "error for every k_exp) nor on the reference area; closed forms: C15_nearby_supply_closed_form (any DHW supply "
+             "without electricity, ambient heat or biomass: the renewable part of what solar thermal and district networks "
+             "supply, over the demand; C15_solar_boiler), C15_direct_electric_closed_form (on-site electricity used for DHW "
+             "over the demand). PARTIAL: the closed forms of the other canonical mixes (heat pump, biomass), the range "
+             "[0,1] for consistent demands, the invariance under non-EPB and other services' non-electric consumption, and the biomass-without-"
              "output error are decided by the differential run only: model vs implementation on every generated building, "
              "and those statements evaluated on implementation outputs.",
         design_ref="DESIGN.md §6 C15",
